@@ -162,10 +162,26 @@ CHECKS["C10"] = dict(
          "callee); exhaustive to chain length 2 in the thorough tier; closures and loop-carried values are listed known findings.",
     design_ref="5/C10", engine="GIRMachine")
 
+CHECKS["C13"] = dict(
+    category="model_checking",
+    technique="TLA+ design model of the schedulers (Scheduler.tla: frame stack, per-call-site counter, path store, cut-off rule) model-checked by TLC for every small call graph - bounds as invariants, termination as a liveness property; trace validation (SchedulerTrace.tla) of real runs on parameterised adversarial families recorded by run-time wrapping of the schedulers",
+    text="TLC proves for every assignment of callee sets to the call statements of 2-3 methods, and every visiting order, that the top-down "
+         "scheduler terminates and that pushes, interruptions, decisions and stack depth stay inside explicit bounds in the number of call sites. "
+         "Real runs (recursion, mutual recursion, self-application, call chains with 2-3 call sites per link, diamonds, nested loops, cyclic imports, "
+         "cyclic object graphs, empty callees, taint feedback loops, hostile constants; with and without --enable-p2; n swept) are recorded at the "
+         "schedulers' linearisation points and walked by TLC: the same bounds, with the run's own iteration constants, must hold at every event, "
+         "the decision at every call statement must be the one the model's cut-off rule computes (drift otherwise), and a run that exceeds its "
+         "event or wall-clock budget diverges.",
+    note="Time per scheduler step is not modelled (only the wall-clock budget catches a step that never returns); bounds evaluated with slack factor 2; "
+         "python families; the statement loop is abstracted to its visit bound (its order is C06's business); bottom-up phase: at most one push per method.",
+    design_ref="5/C13", engine="Scheduler")
+
 NOT_YET = {
 }
 
 ENGINES = [
+    dict(name="Scheduler", path="specs/Scheduler.tla specs/SchedulerTrace.tla harness/c13.py harness/schedtrace.py harness/schedgen.py harness/lianrun.py",
+         serves_properties=["C13"], kind_free_text="TLA+ design model (safety bounds + liveness) + trace spec over recorded scheduler events, TLC"),
     dict(name="TaintRules", path="specs/TaintRules.tla harness/c11.py harness/taintgen.py harness/girjson.py harness/lianrun.py",
          serves_properties=["C11"], kind_free_text="TLA+ rule-match predicate and taint closure, TLC as fixpoint engine over recorded runs"),
     dict(name="EntryPoints", path="specs/EntryPoints.tla harness/c20.py harness/c20_post.py",
